@@ -39,6 +39,30 @@ def check_node(ctx, b, tb, agg, site):
     if a is None:
         a = m_call(asrt, name='sort_by_key', kind='mut') or m_call(asrt, name='sort_by_cached_key', kind='mut')
         key_sort = a is not None
+    if a is None and strip_sites(asrt)[0] == 'param':
+        # a constructor that trusts its caller's order: the obligation moves to every call site (universal over sites)
+        if not check_digest_formula(ctx, inst, site, subj, asrt, dig):
+            return
+        k = strip_sites(asrt)[1]
+        callers = ctx.F.callers().get(b.hash, [])
+        if not callers:
+            ctx.fail(inst, site, 'order-trusting node constructor without any caller to judge', key=inst + '|trust_nocaller')
+            return
+        allok = True
+        for cb, cbi in callers:
+            ctb = TermBuilder(ctx.F, cb)
+            arg = ctb.call_args(cbi)[k - 1]
+            okc, why = ordered_vector(ctx, cb, arg)
+            csite = ctx.site(cb, cbi)
+            if okc:
+                ctx.ok(inst, csite, 'caller of the order-trusting constructor passes %s' % why)
+            else:
+                allok = False
+                ctx.fail(inst, csite, 'passes an assertion vector that is not known to be in ascending digest order to a constructor that does not sort: %s' % why,
+                         key=inst + '|trust_caller|' + cb.path)
+        if allok:
+            ctx.ok(inst, site, 'constructor hashes [digest(subject)] ++ digests of the given vector; every caller passes a digest-ordered vector')
+        return
     if a is None:
         ctx.fail(inst, site, 'stored assertion vector is not the result of a sort: %s' % fmt(asrt), key=inst + '|nosort')
         return
@@ -70,11 +94,60 @@ def check_node(ctx, b, tb, agg, site):
     if not good:
         ctx.fail(inst, site, 'sort comparator is not ascending order of element digests: %s' % (fmt(rt) if rt else '?'), key=inst + '|cmpform')
         return
-    # digest = from_digests(extend!(list[digest(subject)], map(iter(sorted), |a| digest(a))))
+    if check_digest_formula(ctx, inst, site, subj, asrt, dig):
+        ctx.ok(inst, site, 'assertions=sort_by(input, cmp(digest(a),digest(b))); digest=from_digests([digest(subject)]++map(digest, sorted))',
+               sample=fmt(agg))
+
+
+def sort_comparator_ok(ctx, clo, key_sort=False):
+    rt = comparator_table(ctx, ctx.F, clo[1]) if isinstance(clo, tuple) and clo and clo[0] == 'closure' else None
+    if rt is None:
+        return False, 'comparator is not a closure'
+    if key_sort:
+        x = m_digest(rt)
+        return (x is not None and strip_sites(x) == ('param', 2)), fmt(rt)
+    c = m_call(rt, name='cmp', trait='Ord') or m_call(rt, name='partial_cmp', trait='PartialOrd')
+    if c is not None and len(c) == 2:
+        x, y = m_digest(c[0]), m_digest(c[1])
+        return (x is not None and y is not None and strip_sites(x) == ('param', 2) and strip_sites(y) == ('param', 3)), fmt(rt)
+    return False, fmt(rt)
+
+
+def ordered_vector(ctx, body, t):
+    """Is term t (in `body`) known to be in ascending digest order? -> (bool, description)"""
+    from .. import obscure
+    st = strip_sites(t)
+    a = m_call(t, name='sort_by', kind='mut') or m_call(t, name='sort_unstable_by', kind='mut')
+    if a is not None and t[2] == 0:
+        ok_, why = sort_comparator_ok(ctx, a[1])
+        return ok_, 'sort_by(.., %s)' % why
+    if st[0] == 'vfield' and obscure.child_kind(st) == 'Node.assertions':
+        return True, 'the assertions of an existing node (ordered by induction)'
+    c = m_call(st, name='assertions', self_suffix='Envelope')
+    if c is not None:
+        return True, 'assertions(x) of an existing envelope (ordered by induction)'
+    if st[0] == 'mut' and call_name(st) == 'remove' and st[2] == 0:
+        ok_, why = ordered_vector(ctx, body, st[3][0])
+        return ok_, 'remove(%s) keeps the order' % why
+    col = m_call(st, name='collect', trait='Iterator')
+    mp = m_call(col[0], name='map', trait='Iterator') if col else None
+    if mp is not None:
+        ok_, why = ordered_vector(ctx, body, elem_source(mp[0]))
+        obsc = ctx.F.method1('Envelope', 'elide_set_with_action')
+        root = body
+        if body.dk == 'Closure' and body.closure_parent:
+            root = ctx.F.by_path.get(body.closure_parent, body)
+        if ok_ and obsc is not None and root.hash == obsc.hash:
+            return True, 'element-wise digest-preserving image (obscuring recursion, C02.4) of %s' % why
+        return False, 'an element-wise map whose digest preservation is not established here: %s' % fmt(st)
+    return False, fmt(st)
+
+
+def check_digest_formula(ctx, inst, site, subj, asrt, dig):
     d = m_call(dig, name='from_digests', self_suffix='Digest')
     if d is None or len(d) != 1:
         ctx.fail(inst, site, 'node digest is not Digest::from_digests(..): %s' % fmt(dig), key=inst + '|fromdigests')
-        return
+        return False
     e = m_call(d[0], name='extend', kind='mut')
     ok = False
     why = ''
@@ -98,9 +171,8 @@ def check_node(ctx, b, tb, agg, site):
         why = 'digest list is not [digest(subject)] extended by the assertion digests: %s' % fmt(d[0])
     if not ok:
         ctx.fail(inst, site, why, key=inst + '|formula')
-        return
-    ctx.ok(inst, site, 'assertions=sort_by(input, cmp(digest(a),digest(b))); digest=from_digests([digest(subject)]++map(digest, sorted))',
-           sample=fmt(agg))
+        return False
+    return True
 
 
 def check(ctx):
